@@ -381,7 +381,7 @@ def merge_cross_check(chk, shape, tier):
         chk.extra.setdefault('engine_cross_check', {})[shape.fname] = len(batch)
 
 
-def check_merge(chk, fname, tier):
+def check_merge(chk, fname, tier, pool=None):
     shape = MergeShape(fname)
     chk.function(MDU, fname)
     if len(shape.params) != 2:
@@ -396,6 +396,24 @@ def check_merge(chk, fname, tier):
     bounded, spurious = {}, {}
     if opened or c.unsupported:
         bounded, spurious = merge_bounded(shape, opened, tier)
+    # bounded stand-in on the real function (independent of what the engine supports): exhaustive small scope with ':' inside
+    # namespaces and keys -- the map key used by the code must be injective in (ns, key)
+    if pool is not None:
+        res, raw = pool.get('merge_native')
+        bname = 'C10.%s.native_small_scope' % fname
+        bound = "real %s, |existing| <= 1, |updates| <= 2 over namespaces {'', ':a', 'a', ':a:b'} x keys {'k', 'a:k', 'b:k', ''}: every clause evaluated natively" % fname
+        if res is None:
+            chk.error(bname, 'bounded stand-in did not run: %s' % raw[-400:])
+        else:
+            fails = res['failures'].get('trial' if shape.trial else 'study', {})
+            chk.bounded_standin(bname, bound, 'violated' if fails else 'held', {'runs': res.get('runs'), 'failing_clauses': sorted(fails)})
+            for clause, w in fails.items():
+                nm = 'C10.%s.%s' % (fname, clause)
+                if nm not in bounded:
+                    bounded[nm] = {'model': 'exhaustive native run of the real function (bounded scope)\ninputs=%s\nnative=%s' % (json.dumps(w['inputs']), json.dumps(w['native'])),
+                                   'replay': {'driver': 'replay/c10_replay.py merge', 'inputs': w['inputs'], 'native_result': w['native'],
+                                              'expected': 'clause %s holds' % clause}, 'reproduced': True}
+                    spurious.pop(nm, None)
     # loop invariants are proof hints: a failed hint alone never refutes the property (DESIGN 2.3)
     for n in list(c.by_name):
         if '.loop' in n:
@@ -1561,11 +1579,11 @@ def main(tier):
         chk.assume(a)
     ckit.arm_deadline(chk, 420 if tier == 'quick' else 2400)
     pool = ckit.ReplayPool()
-    for key in ('ram_partial', 'servicer_join', 'trial_id_zero', 'metadata_core', 'inram_update_metadata', 'sql_effect'):
+    for key in ('ram_partial', 'servicer_join', 'trial_id_zero', 'metadata_core', 'inram_update_metadata', 'sql_effect', 'merge_native'):
         pool.start(key, 'c10_replay.py', [key])
     pool.start('namespace', 'c10_replay.py', ['namespace'], {'max_len': 4, 'max_comp': 3})
     for fname in ('merge_study_metadata', 'merge_trial_metadata'):
-        check_merge(chk, fname, tier)
+        check_merge(chk, fname, tier, pool)
     ram = check_ram(chk, tier, pool)
     check_servicer(chk, tier, ram, pool)
     check_metadata_core(chk, tier, pool)
